@@ -777,15 +777,20 @@ func mkReplay(name, prop string, opts Opts, r RunResult, tape []uint32, want dsi
 // or library code panicked: a harness error).
 func panicOrigin(stack string) string {
 	lines := strings.Split(stack, "\n")
-	seen := false
-	for i := 0; i+1 < len(lines); i++ {
-		fn := strings.TrimSpace(lines[i])
-		if strings.HasPrefix(fn, "panic(") {
-			seen = true
-			i++ // its file line
-			continue
+	// a deferred function may have recovered and re-raised the panic: the original one is the
+	// last panic( frame of the listing (frames are listed innermost first)
+	start := -1
+	for i, l := range lines {
+		if strings.HasPrefix(strings.TrimSpace(l), "panic(") {
+			start = i
 		}
-		if !seen || fn == "" || strings.HasPrefix(fn, "/") {
+	}
+	if start < 0 {
+		return ""
+	}
+	for i := start + 2; i+1 < len(lines); i++ {
+		fn := strings.TrimSpace(lines[i])
+		if fn == "" || strings.HasPrefix(fn, "/") {
 			continue
 		}
 		file := strings.TrimSpace(lines[i+1])
